@@ -68,7 +68,8 @@ func (l *connLog) isClosed() bool      { l.mu.Lock(); defer l.mu.Unlock(); retur
 
 type caseSpec struct {
 	path     string    // dialer | transport
-	hs       *[2]int16 // advertised SaslHandshake range, nil = not listed
+	hs       *[2]int16 // advertised SaslHandshake (key 17) range, nil = not listed
+	au       *[2]int16 // advertised SaslAuthenticate (key 36) range, nil = not listed (independent of hs)
 	mech     string    // plain | scram256 | scram512 | steps
 	user     string
 	pass     string
@@ -80,6 +81,7 @@ type caseSpec struct {
 	failKind string // code | eof | badid | trunc
 	badCreds string // how the broker reports bad credentials: code | challenge
 	refSrv   string // xdg | stdlib (SCRAM reference server)
+	wrongCreds bool // the credential table says the pair is wrong (after normalisation)
 	addr     string // address to dial ("" = broker1:9092); a non-numeric port makes splitHostPortNumber fail
 }
 
@@ -91,10 +93,7 @@ func (c caseSpec) address() string {
 }
 
 func (c caseSpec) String() string {
-	hs := "none"
-	if c.hs != nil {
-		hs = fmt.Sprintf("%d-%d", c.hs[0], c.hs[1])
-	}
+	hs := rangeStr(c.hs) + "/" + rangeStr(c.au)
 	return fmt.Sprintf("%s hs=%s mech=%s fail=%s/%s mechfail=%d", c.path, hs, c.mech, c.failAt, c.failKind, c.mechFail)
 }
 
@@ -181,7 +180,14 @@ func buildMech(c caseSpec) (sasl.Mechanism, error) {
 
 // ---------------------------------------------------------------- broker
 
-var apiRanges = [][3]int16{{18, 0, 2}, {36, 0, 1}, {3, 1, 1}, {10, 0, 0}, {2, 1, 1}}
+var apiRanges = [][3]int16{{18, 0, 2}, {3, 1, 1}, {10, 0, 0}, {2, 1, 1}}
+
+func rangeStr(r *[2]int16) string {
+	if r == nil {
+		return "none"
+	}
+	return fmt.Sprintf("%d_%d", r[0], r[1])
+}
 
 func serve(conn net.Conn, c caseSpec, lg *connLog) {
 	defer close(lg.done)
@@ -267,8 +273,14 @@ func serve(conn net.Conn, c caseSpec, lg *connLog) {
 	}
 
 	for {
+		// a peer that stops talking (e.g. waits for bytes that will never come): a broker gives up and closes
+		conn.SetReadDeadline(time.Now().Add(1500 * time.Millisecond))
 		frame, err := muxfake.ReadFrame(conn)
 		if err != nil {
+			var ne net.Error
+			if errors.As(err, &ne) && ne.Timeout() {
+				lg.addEnv("EOF")
+			}
 			return
 		}
 		if raw && !authDone {
@@ -280,6 +292,10 @@ func serve(conn net.Conn, c caseSpec, lg *connLog) {
 		}
 		h, err := muxfake.ParseHeader(frame)
 		if err != nil {
+			// not a Kafka request at all (e.g. a bare token where a framed request is due): a real broker
+			// rejects it as an invalid request and closes
+			lg.addJournal("other:65535")
+			lg.addEnv("U:65535")
 			return
 		}
 		switch h.Key {
@@ -289,11 +305,13 @@ func serve(conn net.Conn, c caseSpec, lg *connLog) {
 			for _, r := range apiRanges {
 				res.ApiKeys = append(res.ApiKeys, apiversions.ApiKeyResponse{ApiKey: r[0], MinVersion: r[1], MaxVersion: r[2]})
 			}
-			hs := "none"
 			if c.hs != nil {
 				res.ApiKeys = append(res.ApiKeys, apiversions.ApiKeyResponse{ApiKey: 17, MinVersion: c.hs[0], MaxVersion: c.hs[1]})
-				hs = fmt.Sprintf("%d:%d", c.hs[0], c.hs[1])
 			}
+			if c.au != nil {
+				res.ApiKeys = append(res.ApiKeys, apiversions.ApiKeyResponse{ApiKey: 36, MinVersion: c.au[0], MaxVersion: c.au[1]})
+			}
+			hs := rangeStr(c.hs) + ":" + rangeStr(c.au)
 			if c.failAt == "versions" && c.failKind == "code" {
 				res.ErrorCode = 35
 				lg.addEnv("V:35:" + hs)
@@ -334,16 +352,18 @@ func serve(conn net.Conn, c caseSpec, lg *connLog) {
 		case 36:
 			msg, err := muxfake.Decode(frame)
 			if err != nil {
+				lg.addJournal("other:65535")
+				lg.addEnv("U:65535")
 				return
 			}
 			tok := msg.(*saslauthenticate.Request).AuthBytes
-			lg.addJournal("auth:" + hx(tok))
+			lg.addJournal(fmt.Sprintf("auth:%d:%s", h.Ver, hx(tok)))
 			if token(tok, true, h.Ver, h.Corr) {
 				return
 			}
 		default:
-			lg.addJournal(fmt.Sprintf("other:%d", h.Key))
-			lg.addEnv(fmt.Sprintf("U:%d", h.Key))
+			lg.addJournal(fmt.Sprintf("other:%d", uint16(h.Key)))
+			lg.addEnv(fmt.Sprintf("U:%d", uint16(h.Key)))
 			var res protocol.Message
 			switch h.Key {
 			case 3:
@@ -502,7 +522,12 @@ func emitCase(c caseSpec, res caseResult) {
 		if c.addr != "" {
 			path += "!addr"
 		}
-		fmt.Fprintf(out, "auth %s %d %s\t%s;%s;%d\n", path, sasl, env, journal, res.results[i], cl)
+		// what the property demands of the outcome: right credentials and no failure placed anywhere ⇒ the dial succeeds
+		expect := "any"
+		if c.failAt == "" && c.mechFail < 0 && c.addr == "" && c.user == c.srvUser && c.pass == c.srvPass && !(c.hs != nil && c.hs[1] < 0 && c.path == "dialer") && !c.wrongCreds {
+			expect = "ok"
+		}
+		fmt.Fprintf(out, "auth %s %d %s %s\t%s;%s;%d\n", path, sasl, env, expect, journal, res.results[i], cl)
 	}
 }
 
@@ -511,13 +536,24 @@ func main() {
 	r := gen.New()
 	thorough := gen.Thorough()
 	_ = r
-	hsChoices := []*[2]int16{{0, 1}, {0, 0}, nil, {1, 1}, {0, 5}, {0, -1}}
+	// the broker advertises SaslHandshake and SaslAuthenticate ranges INDEPENDENTLY (Kafka 0.10: handshake 0..0 and
+	// no SaslAuthenticate; Kafka 1.0/1.1: handshake 0..1, SaslAuthenticate 0..0; 2.x: 0..1 and 0..1/0..2)
+	type adv struct{ hs, au *[2]int16 }
+	var advs []adv
+	for _, hs := range []*[2]int16{nil, {0, 0}, {0, 1}} {
+		for _, au := range []*[2]int16{nil, {0, 0}, {0, 1}, {0, 2}} {
+			advs = append(advs, adv{hs, au})
+		}
+	}
+	advs = append(advs, adv{&[2]int16{1, 1}, &[2]int16{0, 1}}, adv{&[2]int16{0, 5}, &[2]int16{1, 1}}, adv{&[2]int16{0, -1}, &[2]int16{0, 1}})
+	hsChoices := []*[2]int16{{0, 1}, {0, 0}}
 	var cases []caseSpec
 	for _, path := range []string{"dialer", "transport"} {
-		for _, hs := range hsChoices {
+		for _, a := range advs {
+			hs, au := a.hs, a.au
 			// successful exchanges
 			for _, m := range []string{"plain", "scram256", "scram512", "steps"} {
-				cases = append(cases, caseSpec{path: path, hs: hs, mech: m, user: "alice", pass: "s3cret", srvUser: "alice", srvPass: "s3cret",
+				cases = append(cases, caseSpec{path: path, hs: hs, au: au, mech: m, user: "alice", pass: "s3cret", srvUser: "alice", srvPass: "s3cret",
 					steps: 1 + r.Intn(4), mechFail: -1, refSrv: "xdg"})
 			}
 			// failure at every step
@@ -530,24 +566,24 @@ func main() {
 					if at == "auth3" {
 						m = "steps"
 					}
-					cases = append(cases, caseSpec{path: path, hs: hs, mech: m, user: "bob", pass: "pw", srvUser: "bob", srvPass: "pw",
+					cases = append(cases, caseSpec{path: path, hs: hs, au: au, mech: m, user: "bob", pass: "pw", srvUser: "bob", srvPass: "pw",
 						steps: 3 + r.Intn(2), mechFail: -1, failAt: at, failKind: kind, refSrv: "xdg"})
 				}
 			}
 			// mechanism failures
 			for f := 0; f <= 3; f++ {
-				cases = append(cases, caseSpec{path: path, hs: hs, mech: "steps", steps: 3, mechFail: f})
+				cases = append(cases, caseSpec{path: path, hs: hs, au: au, mech: "steps", steps: 3, mechFail: f})
 			}
 		}
 	}
 	// no SASL configured (the model's other start state): Dialer writes nothing, Transport only ApiVersions
-	cases = append(cases, caseSpec{path: "dialer", hs: hsChoices[0], mech: "none", mechFail: -1},
-		caseSpec{path: "transport", hs: hsChoices[0], mech: "none", mechFail: -1},
-		caseSpec{path: "transport", hs: hsChoices[0], mech: "none", mechFail: -1, failAt: "versions", failKind: "code"})
+	cases = append(cases, caseSpec{path: "dialer", hs: hsChoices[0], au: hsChoices[0], mech: "none", mechFail: -1},
+		caseSpec{path: "transport", hs: hsChoices[0], au: hsChoices[0], mech: "none", mechFail: -1},
+		caseSpec{path: "transport", hs: hsChoices[0], au: hsChoices[0], mech: "none", mechFail: -1, failAt: "versions", failKind: "code"})
 	// the dialled address has a port that is not a number: host/port for sasl.Metadata cannot be computed
 	for _, a := range []string{"broker1:kafka", "broker1:"} {
 		for _, path := range []string{"dialer", "transport"} {
-			cases = append(cases, caseSpec{path: path, hs: hsChoices[0], mech: "plain", user: "u", pass: "p", srvUser: "u", srvPass: "p", mechFail: -1, addr: a})
+			cases = append(cases, caseSpec{path: path, hs: hsChoices[0], au: hsChoices[0], mech: "plain", user: "u", pass: "p", srvUser: "u", srvPass: "p", mechFail: -1, addr: a})
 		}
 	}
 	_ = thorough
